@@ -14,6 +14,7 @@ mod pscore_unit;
 mod jslit_unit;
 mod ent_unit;
 mod cssmap_unit;
+mod rpx_unit;
 
 pub struct Outcome {
     pub found: bool,
@@ -66,6 +67,8 @@ fn main() {
         ("ENT", "run") => ent_unit::run(&input.unwrap()),
         ("CSSMAP", "search") => cssmap_unit::search(),
         ("CSSMAP", "run") => cssmap_unit::run(&input.unwrap()),
+        ("RPX", "search") => rpx_unit::search(),
+        ("RPX", "run") => rpx_unit::run(&input.unwrap()),
         ("TOTAL", "search") => total_unit::search(),
         ("TOTAL", "run") => total_unit::run(&input.unwrap()),
         _ => {
